@@ -6,7 +6,7 @@ PROP = "C12"
 PAR_OK = True
 LEVEL = "proof"
 RULE = ("random multifurcating trees (3..12 tips, rooted/unrooted, parent slot at random positions, inner names/comments "
-        "sometimes), inner nodes / the root named like a tip, like an absent table entry or freshly, with extra table entries (or sequences) for non-tip names; wide polytomies with 255..1000 tip children and skewed states (model + oracle) and star trees with up to 2^16+1 (thorough: 2^17+1) tips per state (oracle only, evaluated in binary numbers); tip states over 1..4 states (plain and exotic state names to exercise sort.Strings, extra map entries "
+        "sometimes), inner nodes / the root named like a tip, like an absent table entry or freshly, with extra table entries (or sequences) for non-tip names; wide polytomies with 255..1000 tip children and skewed states (model + oracle) and star trees with up to 2^16+1 (thorough: 2^17+1) tips per state (oracle only, evaluated in binary numbers); alphabets of 63/64/65/70/130 states with the tips on high-index states; trees with a history (parsed from Newick, then re-rooted on an outgroup / at the midpoint, resolved, grafted, pruned, collapsed through the API before the call, judged on the tree dumped just before it); tip states over 1..4 states (plain and exotic state names to exercise sort.Strings, extra map entries "
         "for absent tips, rarely a missing tip; 15%: duplicate inner names and inner names that look like node ids), 30% of the cases with --random-resolve and a recorded rand stream, algorithms downpass/deltran/acctran (+none for the correspondence), every "
         "case also run on the same tree re-rooted at a random inner node (the judge checks the second tree with "
         "Model.Reroot.reroot); sequence variant: alignments of 1..6 sites, unambiguous ACGT(-) in upper, lower or mixed case with the character variant "
@@ -151,6 +151,46 @@ def gen_star(rng, tier):
             out.append({"sx": sx(case), "meta": {"kind": "star", "algo": algo, "ntips": sum(counts), "wide": big}})
     return out
 
+def gen_hist(rng, tier):
+    """trees with a history: Newick text parsed by the repository's parser (parser ids), then edited in
+    memory through the public API before the reconstruction; the judge takes the tree dumped just before"""
+    n = {"quick": 120, "thorough": 3000, "search": 300}[tier]
+    g = Gen(rng)
+    out = []
+    for _ in range(n):
+        t = g.tree(lo=4, hi=10, maxdeg=rng.choice([2, 3, 4, 5]), lenmode="all", supmode="none",
+                   inner_names=rng.random() < 0.2, comments=False, up_random=False)
+        tips = leaves(t)
+        sts = rng.choice(STATE_POOLS)[:rng.choice([2, 2, 3, 3, 4])]
+        states = [[tp, rng.choice(sts)] for tp in tips]
+        ops, same = [], True
+        for _ in range(rng.choice([1, 1, 2, 3])):
+            r = rng.random()
+            if r < 0.35:
+                ops.append([Sym("outgroup")] + rng.sample(tips, rng.choice([1, 1, 2, 3])))
+            elif r < 0.5:
+                ops.append([Sym("midpoint")])
+            elif r < 0.6:
+                ops.append([Sym("reroot"), str(rng.randrange(0, 8))])
+            elif r < 0.75:
+                ops.append([Sym("resolve"), str(rng.randrange(1, 2**31))]); same = False
+            elif r < 0.87:
+                nm = "g%d" % len(ops)
+                ops.append([Sym("graft"), str(rng.randrange(0, 50)), nm]); same = False
+                states.append([nm, rng.choice(sts)])
+            elif r < 0.94 and len(tips) > 5:
+                ops.append([Sym("prune")] + rng.sample(tips, rng.choice([1, 2]))); same = False
+            else:
+                ops.append([Sym("collapse")]); same = False
+        rng.shuffle(states)
+        algo = rng.choice(["downpass", "deltran", "acctran", "none"])
+        case = {"kind": Sym("hist"), "newick": newick(t), "ops": ops, "states": states, "algo": Sym(algo), "sameroot": same}
+        out.append({"sx": sx(case), "meta": {"kind": "hist", "algo": algo, "ntips": len(tips), "ops": "+".join(o[0].s for o in ops),
+                                              "sameroot": same}})
+    return out
+
+BIG = ["s%03d" % i for i in range(130)]
+
 def inner_indexes(t):
     return [i for i, n in enumerate(preorder(t)) if len(n["slots"]) >= 2]
 
@@ -172,6 +212,14 @@ def gen(rng, tier):
         k = rng.choice([1, 2, 2, 3, 3, 4])
         sts = pool[:k]
         extra_keys = spice_inner_names(t, rng, tips) if (not dup and rng.random() < 0.25) else None
+        bigk = rng.choice([63, 64, 65, 70, 130]) if rng.random() < 0.12 else 0
+        if bigk:
+            # an alphabet of bigk states (extra table entries carry the states no tip has); the tips use a few
+            # states, most of them of high index, so that ambiguous nodes are resolved through those
+            pool = BIG[:bigk]
+            hi = [pool[i] for i in rng.sample(range(max(0, bigk - 6), bigk), min(3, bigk))]
+            sts = hi + ([rng.choice(pool[:10])] if rng.random() < 0.5 else [])
+            k = len(sts)
         # clustered states give long runs, uniform ones many changes
         if rng.random() < 0.5:
             states = [(n, rng.choice(sts)) for n in tips]
@@ -192,6 +240,9 @@ def gen(rng, tier):
                 if key not in have and rng.random() < 0.7:
                     states.append((key, rng.choice(pool)))      # a table entry for a name that is not a tip
                     have.add(key)
+        if bigk:
+            for i, st in enumerate(pool):
+                states.append(("abs%03d" % i, st))
         rng.shuffle(states)
         algo = rng.choice(["downpass", "deltran", "acctran", "downpass", "deltran", "acctran", "none"])
         case = {"kind": Sym("acr"), "tree": T(t), "states": [[a, b] for a, b in states], "algo": Sym(algo)}
@@ -206,10 +257,11 @@ def gen(rng, tier):
             case["rr"] = True
             case["seed"] = rng.randrange(1, 2**31)
             case["nraw"] = 4 * n_nodes(t) + 16
-        out.append({"sx": sx(case), "meta": {"kind": "acr", "algo": algo, "ntips": len(tips), "k": k, "rr": rr, "dupnames": dup, "innerkeys": extra_keys is not None,
+        out.append({"sx": sx(case), "meta": {"kind": "acr", "algo": algo, "ntips": len(tips), "k": k, "rr": rr, "dupnames": dup, "innerkeys": extra_keys is not None, "alphabet": bigk,
                                               "rooted": len(t["slots"]) == 2, "rerooted": "tree2" in case}})
     out += gen_wide(rng, tier)
     out += gen_star(rng, tier)
+    out += gen_hist(rng, tier)
     for _ in range(n_asr):
         t = g.tree(lo=3, hi=10, maxdeg=rng.choice([2, 3, 4, 5]), lenmode="mixed", supmode="mixed",
                    inner_names=rng.random() < 0.3, comments=rng.random() < 0.2, up_random=rng.random() < 0.5)
